@@ -94,3 +94,69 @@ class WildTwo:
 
     own: List[object] = field(default_factory=list, metadata={"type": "Wildcard", "namespace": "##targetNamespace"})
     other: List[object] = field(default_factory=list, metadata={"type": "Wildcard", "namespace": "##other"})
+
+
+# -- one model per field kind of spec/DictShape.tla -------------------------------------------------------------
+from enum import Enum as _Enum
+
+
+class SColor(_Enum):
+    RED = "s"
+    BLUE = "blue"
+
+
+@dataclass
+class SLeaf:
+    v: Optional[int] = field(default=None, metadata={"type": "Element"})
+
+
+@dataclass
+class SOther:
+    w: Optional[str] = field(default=None, metadata={"type": "Element"})
+    v: Optional[int] = field(default=None, metadata={"type": "Element"})
+
+
+def _shape_model(name, hint, meta, default=None, factory=None, required=False):
+    import dataclasses
+
+    kw = {"metadata": meta}
+    if factory is not None:
+        kw["default_factory"] = factory
+    elif not required:
+        kw["default"] = default
+    return dataclasses.make_dataclass(name, [("x", hint, field(**kw))], kw_only=required)
+
+
+SHAPE_MODELS = {
+    "int": _shape_model("KInt", Optional[int], {"type": "Element"}),
+    "nillableInt": _shape_model("KNilInt", Optional[int], {"type": "Element", "nillable": True}),
+    "requiredInt": _shape_model("KReqInt", int, {"type": "Element", "required": True}, required=True),
+    "intList": _shape_model("KIntList", List[int], {"type": "Element"}, factory=list),
+    "tokens": _shape_model("KTokens", List[int], {"type": "Element", "tokens": True}, factory=list),
+    "tokenLists": _shape_model("KTokenLists", List[List[int]], {"type": "Element", "tokens": True}, factory=list),
+    "model": _shape_model("KModel", Optional[SLeaf], {"type": "Element"}),
+    "modelList": _shape_model("KModelList", List[SLeaf], {"type": "Element"}, factory=list),
+    "modelUnion": _shape_model("KModelUnion", Optional[Union[SLeaf, SOther]], {"type": "Element"}),
+    "anyType": _shape_model("KAnyType", Optional[object], {"type": "Element"}),
+    "wildcardList": _shape_model("KWildcard", List[object], {"type": "Wildcard", "namespace": "##any"}, factory=list),
+    "attributes": _shape_model("KAttributes", Dict[str, str], {"type": "Attributes"}, factory=dict),
+    "primUnion": _shape_model("KPrimUnion", Optional[Union[int, str]], {"type": "Element"}),
+    "compound": _shape_model("KCompound", List[Union[int, SLeaf]], {"type": "Elements", "choices": ({"name": "n", "type": int}, {"name": "leaf", "type": SLeaf})}, factory=list),
+    "enum": _shape_model("KEnum", Optional[SColor], {"type": "Element"}),
+}
+
+SHAPE_VALUES = {
+    "null": None, "true": True, "int": 5, "float": 1.5, "str": "s", "numstr": "5", "emptyList": [], "intList": [5, 6], "strList": ["s", "t"],
+    "listOfIntLists": [[5], [6, 7]], "listOfEmptyList": [[]], "emptyObj": {}, "leafObj": {"v": 1}, "unknownKeyObj": {"zz": 1},
+    "listOfLeafObj": [{"v": 1}, {"v": 2}], "listOfEmptyObj": [{}], "listOfNull": [None], "anyElementObj": {"qname": "q", "text": "t", "tail": None, "children": [], "attributes": {}},
+    "derivedObj": {"qname": "q", "value": 5, "type": None}, "strDict": {"a": "1", "b": "2"}, "nestedList3": [[[1]]],
+}
+
+
+def shape_wrappers(model):
+    """The model as the type of a field of a nested object / of objects in a list (positions of DictShape.tla)."""
+    import dataclasses
+
+    nested = dataclasses.make_dataclass("Nested" + model.__name__, [("inner", Optional[model], field(default=None, metadata={"type": "Element"}))])
+    inlist = dataclasses.make_dataclass("InList" + model.__name__, [("items", List[model], field(default_factory=list, metadata={"type": "Element"}))])
+    return nested, inlist
